@@ -16,6 +16,33 @@ impl SliceSink {
         ensures n as int + utf8_len(self.out()) == self.frame()
     { unimplemented!() }
 }
+// ---- the byte level, for an event that is larger than the window and is delivered in pieces (EventReceiver's second field):
+// `raw()` is what a raw copy put at the front of the slice (rule S1: `buf[..n].copy_from_slice(&v[..n])` -> put_front);
+// utf8(s) is the UTF-8 form of a text (uninterpreted; its length is utf8_len)
+impl SliceSink {
+    pub uninterp spec fn raw(&self) -> Seq<u8>;
+    // the length of the whole slice as it was handed over (`buf.len()` of a slice nobody advanced)
+    #[verifier::external_body]
+    pub fn capacity(&self) -> (n: usize) ensures n as int == self.frame() { unimplemented!() }
+    #[verifier::external_body]
+    pub fn put_front(&mut self, src: &Vec<u8>, n: usize)
+        requires n <= src@.len(), n <= old(self).frame()
+        ensures final(self).raw() == src@.take(n as int), final(self).frame() == old(self).frame()
+    { unimplemented!() }
+}
+pub uninterp spec fn utf8(s: Seq<char>) -> Seq<u8>;
+#[verifier::external_body]
+pub broadcast proof fn axiom_utf8_length(s: Seq<char>)
+    ensures #[trigger] utf8(s).len() == utf8_len(s)
+{}
+// rule S1 stand-ins for `a.min(b)` on usize and `v.drain(..n)` (assumed meanings)
+#[verifier::external_body]
+pub fn min_usize(a: usize, b: usize) -> (r: usize) ensures r == (if a <= b { a } else { b }) { unimplemented!() }
+#[verifier::external_body]
+pub fn drop_front(v: &mut Vec<u8>, n: usize)
+    requires n <= old(v)@.len()
+    ensures final(v)@ == old(v)@.skip(n as int)
+{ unimplemented!() }
 // length of the UTF-8 form of a text (assumed: additive, at least one byte per character)
 pub uninterp spec fn utf8_len(s: Seq<char>) -> nat;
 #[verifier::external_body]
@@ -123,16 +150,37 @@ pub uninterp spec fn last_poll<T>(q: Receiver<T>) -> Poll<Result<T, RecvError>>;
 pub fn recv_poll<T>(q: &mut Receiver<T>, cx: &mut Context<'_>) -> (r: Poll<Result<T, RecvError>>)
     ensures r == last_poll(*final(q))
 { unimplemented!() }
+// Event::push_to (src/event.rs; the same text as write_to on a Vec<u8>, compared byte for byte with write_to by c11) -- assumed:
+// it appends the UTF-8 form of the event's block
+pub uninterp spec fn delivered_form(e: Event) -> Seq<u8>;
+#[verifier::external_body]
+pub broadcast proof fn axiom_delivered_form(e: Event)
+    ensures #[trigger] delivered_form(e) == utf8(enc(e)) || delivered_form(e) == utf8(enc(e) + lf())
+{}
+impl Event {
+    #[verifier::external_body]
+    pub fn push_to(&self, buf: &mut Vec<u8>)
+        ensures final(buf)@ == old(buf)@ + delivered_form(*self)
+    { unimplemented!() }
+}
 pub trait SseRead {
     spec fn polled(&self) -> Poll<Result<Event, RecvError>>;
+    // the bytes of an event that did not fit the previous window and are still to be delivered
+    spec fn waiting(&self) -> Seq<u8>;
     fn poll_read(&mut self, cx: &mut Context<'_>, buf: &mut SliceSink) -> (r: Poll<Result<usize, std::io::Error>>)
-        requires old(buf).out() =~= Seq::<char>::empty()
+        requires old(buf).out() =~= Seq::<char>::empty(), old(buf).frame() > 0
         ensures
-            // the end of the stream (a 0-byte read) is reported when, and only when, the queue says every sender is gone
-            c11((r matches Poll::Ready(Ok(n)) && n == 0) <==> (final(self).polled() matches Poll::Ready(Err(_)))),
-            c11(r is Pending <==> final(self).polled() is Pending),
-            // an event that was received is handed on as its block, whole
-            c11(final(self).polled() matches Poll::Ready(Ok(ev)) ==> (r matches Poll::Ready(res) && (res matches Ok(n) ==>
-                (final(buf).out() == enc(ev) || final(buf).out() == enc(ev) + lf()) && n == utf8_len(final(buf).out())))),
+            // while part of an event is waiting, the queue is left alone and the next piece is delivered: as much as fits, in order,
+            // the rest keeps waiting -- never a 0-byte read
+            c11(old(self).waiting().len() > 0 ==> (r matches Poll::Ready(Ok(n)) && n > 0 && n <= old(self).waiting().len()
+                && final(buf).raw() == old(self).waiting().take(n as int) && final(self).waiting() == old(self).waiting().skip(n as int))),
+            // otherwise: the end of the stream (a 0-byte read) is reported when, and only when, the queue says every sender is gone
+            c11(old(self).waiting().len() == 0 ==> ((r matches Poll::Ready(Ok(n)) && n == 0) <==> (final(self).polled() matches Poll::Ready(Err(_))))),
+            c11(old(self).waiting().len() == 0 ==> (r is Pending <==> final(self).polled() is Pending)),
+            // an event that was received is handed on: as its whole block if that fits the window, else its first bytes now and
+            // the rest waiting -- it is never refused for its size
+            c11(old(self).waiting().len() == 0 ==> (final(self).polled() matches Poll::Ready(Ok(ev)) ==> (r matches Poll::Ready(Ok(n)) && n > 0 && (
+                ((final(buf).out() == enc(ev) || final(buf).out() == enc(ev) + lf()) && n == utf8_len(final(buf).out()) && final(self).waiting().len() == 0)
+                || (n <= delivered_form(ev).len() && final(buf).raw() == delivered_form(ev).take(n as int) && final(self).waiting() == delivered_form(ev).skip(n as int)))))),
     ;
 }
